@@ -9,6 +9,12 @@
             sample timestamp, hint, canonical value); read_source (not in ivs) = dobs, the chunks read
             through the real tsdb.DeletedIterator with the deletion intervals ivs;
      holds: the property on the concatenation of the observed chunk reads and on dobs.
+   merge case  CMerge float opss final:
+     agree: every chunk of run ops (each series of opss) read with read_chunk is one input of the
+            model's chained merge; its output = the observed output of the real
+            ChainSampleIteratorFromIterables over the real chunks (timestamps, hints; values up to
+            the tie-break between sources holding the same timestamp);
+     holds: the property on the observed merged list.
    query case  CQuery srcs final:
      agree: the model's chained merge of the observed per-source lists = the observed merged list;
      holds: the property on the observed merged list. *)
@@ -23,7 +29,8 @@ Open Scope Z_scope.
              #pb pb* #nb nb*
      obs   = t hist                 obsl = #obs obs*
      case  = 0 id float #ops (cut t hist)* #chunks (header obsl)* #ivs (lo hi)* obsl   (chunk case)
-           | 1 id #srcs obsl* obsl                                      (query case) *)
+           | 1 id #srcs obsl* obsl                                      (query case)
+           | 2 id float #series series* obsl   with series = #ops (cut t hist)*    (merge case) *)
 (* packing: every number is zigzag-encoded, cut into base-2^14 digits (least significant first, bit 14
    set on all but the last digit); four such 15-bit symbols per literal; up to three padding zeros *)
 Definition syms (x : int) : list Z :=
@@ -75,7 +82,8 @@ Definition pobsl : P (list rs) := counted pobs.
 Inductive case :=
 | CChunk (float : bool) (ops : list (bool * Z * ahist)) (obs : list (crh * list rs))
          (ivs : list (Z * Z)) (dobs : list rs)
-| CQuery (srcs : list (list rs)) (final : list rs).
+| CQuery (srcs : list (list rs)) (final : list rs)
+| CMerge (float : bool) (opss : list (list (bool * Z * ahist))) (final : list rs).
 
 Definition pop3 : P (bool * Z * ahist) := c <- num ;; t <- num ;; h <- phist ;; ret (bool_of c, t, h).
 Definition pchunk : P (crh * list rs) := c <- num ;; l <- pobsl ;; ret (crh_of c, l).
@@ -86,8 +94,10 @@ Definition pcase : P case :=
     f <- num ;; ops <- counted pop3 ;; obs <- counted pchunk ;;
     ivs <- counted (lo <- num ;; hi <- num ;; ret (lo, hi)) ;; dobs <- pobsl ;;
     ret (CChunk (bool_of f) ops obs ivs dobs)
+  else if tag =? 1 then
+    srcs <- (n <- num ;; rep pobsl (Z.to_nat n)) ;; final <- pobsl ;; ret (CQuery srcs final)
   else
-    srcs <- (n <- num ;; rep pobsl (Z.to_nat n)) ;; final <- pobsl ;; ret (CQuery srcs final).
+    f <- num ;; opss <- counted (counted pop3) ;; final <- pobsl ;; ret (CMerge (bool_of f) opss final).
 
 (* the whole input must be consumed (up to the padding) *)
 Definition parse (raw : list int) : option case :=
@@ -155,6 +165,24 @@ Definition model_query (srcs : list (list rs)) : cres :=
   | _ => chain srcs []
   end.
 
+(* Merged output against the model's: timestamps and hints must be equal; the value must be the value
+   some source holds at that timestamp (when two sources hold different values at one timestamp,
+   which of them the merge returns depends on container/heap's tie-breaking, which is not modelled;
+   the hints do not depend on it). *)
+Definition value_from (srcs : list (list rs)) (o : rs) : bool :=
+  existsb (fun s => existsb (fun x => (r_t x =? r_t o) && value_eqb (r_h x) (r_h o)) s) srcs.
+Fixpoint rsl_match (srcs : list (list rs)) (a b : list rs) : bool :=
+  match a, b with
+  | [], [] => true
+  | m :: a', o :: b' =>
+      (r_t m =? r_t o) && hint_eqb (r_hint m) (r_hint o) && value_from srcs o && rsl_match srcs a' b'
+  | _, _ => false
+  end.
+
+(* merge case: every chunk of every series is one input of ChainSampleIteratorFromIterables *)
+Definition merge_srcs (float : bool) (opss : list (list (bool * Z * ahist))) : list (list rs) :=
+  flat_map (fun ops => map read_chunk (run (kind_of float) ops)) opss.
+
 Definition agree_case (c : case) : bool :=
   match c with
   | CChunk float ops obs ivs dobs =>
@@ -162,7 +190,13 @@ Definition agree_case (c : case) : bool :=
       && rsl_eqb (read_source (keep_of ivs) (run (kind_of float) ops)) dobs
   | CQuery srcs final =>
       match model_query srcs with
-      | COk out => rsl_eqb out final
+      | COk out => rsl_match srcs out final
+      | COutOfFuel => false
+      end
+  | CMerge float opss final =>
+      let srcs := merge_srcs float opss in
+      match chain srcs [] with
+      | COk out => rsl_match srcs out final
       | COutOfFuel => false
       end
   end.
@@ -171,6 +205,7 @@ Definition holds_case (c : case) : bool :=
   match c with
   | CChunk _ _ obs _ dobs => sound_list (concat (map snd obs)) && sound_list dobs
   | CQuery _ final => sound_list final
+  | CMerge _ _ final => sound_list final
   end.
 
 (* an unparsable case counts as a disagreement and as a failure *)
